@@ -224,6 +224,9 @@ def step (st : St) (j : Json) : Except String (St × Json × List Fired) := do
     let committee := (implAssigned out (s.count + 1) 1)
     if committee.any (fun (m, t) => !(s.tssActive m) || (s.queues m).head? != some t) || committee.length ≠ s.threshold then
       fired := fired ++ [{ name := "committee_member_ineligible_or_de_not_fifo", detail := jl (committee.map fun (m, t) => jl [jn m, jn t]) }]
+  if op == "request" && ierr == Generated.Err.tss_ErrDENotFound then
+    -- C05: the sampler drew a member that has no queued nonce pair (only members with one are eligible)
+    fired := fired ++ [{ name := "member_without_nonce_drawn_for_committee", detail := mkObj [("queues", jl (s.members.map fun m => jl ((s.queues m).map jn)))] }]
   if op == "request" && ierr != "" then
     -- a rejected request moves no coins
     let iescrow := (jnatList out "escrow").toOption.getD []
